@@ -726,11 +726,13 @@ func (e *ConcatExpression) Evaluate(ctx *Context, input system.Collection) (syst
 	}
 
 	// Convert empty collection to empty string
+	// (a fresh collection: the operand may be a caller's environment collection
+	// with spare capacity, which append would write into)
 	if len(leftResult) == 0 {
-		leftResult = append(leftResult, system.String(""))
+		leftResult = system.Collection{system.String("")}
 	}
 	if len(rightResult) == 0 {
-		rightResult = append(rightResult, system.String(""))
+		rightResult = system.Collection{system.String("")}
 	}
 
 	if len(leftResult) > 1 || len(rightResult) > 1 {
